@@ -163,6 +163,15 @@ def d_has_nonfinite(d):
     return False
 
 
+def d_nested_nan(d):
+    """a container holding a nan somewhere (its `==` depends on whether the nan OBJECT is shared)"""
+    if d['t'] in ('tuple', 'list'):
+        return any(x == {'t': 'float', 'v': 'nan'} or d_nested_nan(x) for x in d['v'])
+    if d['t'] == 'dict':
+        return any(x == {'t': 'float', 'v': 'nan'} or d_nested_nan(x) for kv in d['v'] for x in kv)
+    return False
+
+
 def cond_f20a(c):
     """inlined although repr(val) does not denote val: 'syntax' | 'name' | None"""
     if c is None or c['op'] in ('+', '!'):
@@ -344,10 +353,42 @@ def gen_cond(r, L, f20_ok=False, ops=None):
     if op in ('+', '!'):
         return {'op': op, 'val': None, 'wrap': r.random() < 0.5}
     d = pick_val(r, f20_ok)
+    if op in ('<', '<=', '>', '>=') and r.random() < 0.7:      # mostly orderable values for the ordering operators
+        while d['t'] not in ('bool', 'int', 'float', 'str', 'tuple', 'list'):
+            d = pick_val(r, f20_ok)
     c = {'op': op, 'val': L.new(d), 'wrap': r.random() < 0.5}
-    if cond_f20b(c) and not f20_ok and r.random() < 0.8:
+    if cond_f20b(c) and not f20_ok:
         c['op'] = r.choice(['==', '!=', '<', '>='])
     return c
+
+
+def comparable_value(r, d):
+    """a value that Python can order against d (same kind), or None"""
+    t = d['t']
+    if t in ('bool', 'int', 'float'):
+        return D(r.choice([0, 1, -1, 5, 256, 257, 2.5, -0.0, 0.1, 1e300, inf, -inf, nan, True, False, 10 ** 10, -7, -10 ** 20]))
+    if t == 'str':
+        return D(r.choice(['', 'a', 'ab', 'b', '\u00e9', "it's", 'Z', 'a\\b']))
+    if t in ('tuple', 'list'):
+        items = list(d['v'])
+        u = r.random()
+        if items and u < 0.3:
+            items = items[:-1]
+        elif u < 0.5:
+            items = items + [D(r.choice([0, 1, 'a']))]
+        elif items:
+            last = comparable_value(r, items[-1])
+            if last is not None and not d_has_nonfinite(last):
+                items = items[:-1] + [last]
+        return {'t': t, 'v': items}
+    return None
+
+
+def ordering_anchor(conds):
+    for k in conds:
+        if k is not None and k['op'] in ('<', '<=', '>', '>=') and k['val'] is not None:
+            return k['val']['d']
+    return None
 
 
 def related_values(r, L, anchors, n):
@@ -365,10 +406,10 @@ def cond_cases(ctx):
     """single-field classes: operator x value x placement x wizard"""
     r = ctx.sub_rng('cond')
     cases = []
-    n = 140 if ctx.tier == 'quick' else 1500
+    n = 190 if ctx.tier == 'quick' else 1900
     combos = [(op, i) for op in OPS[:8] for i in range(len(POOL))]
     r.shuffle(combos)
-    combos = combos[:n] + [(op, None) for op in ('+', '!')] * 3
+    combos = (combos * 3)[:n] + [(op, None) for op in ('+', '!')] * 3
     for op, i in combos:
         L = Labels()
         if op in ('+', '!'):
@@ -376,6 +417,8 @@ def cond_cases(ctx):
         else:
             d = POOL[i] if r.random() < 0.85 else gen_value(r)
             cond = {'op': op, 'val': L.new(d), 'wrap': r.random() < 0.5}
+        if (cond_f20a(cond) or cond_f20b(cond)) and r.random() < 0.85:
+            continue
         place = r.choice(['field', 'annotated', 'meta_skip_if', 'meta_sdi'])
         wizard = r.choice(['json', 'json', 'json', 'plain', 'env'])
         name = r.choice(NAMES)
@@ -392,7 +435,10 @@ def cond_cases(ctx):
             meta['skip_defaults_if'] = cond
             f['default'] = L.new(r.choice(POOL))
             anchors = anchors + [f['default']]
-        vals = related_values(r, L, anchors, 4)
+        vals = related_values(r, L, anchors, 3)
+        oa = ordering_anchor([cond])
+        if oa is not None:
+            vals += [L.new(x) for x in (comparable_value(r, oa) for _ in range(4)) if x is not None]
         cases.append({'stream': 'cond', 'wizard': wizard, 'fields': [f], 'meta': meta,
                       'instances': [[v] for v in vals], 'Es': [None], 'ss': [None] if place != 'meta_sdi' else [None, False]})
     return cases
@@ -406,7 +452,7 @@ def cls_cases(ctx):
         L = Labels()
         k = r.choice([1, 2, 3, 3, 4, 4, 5, 6]) if ci % 9 else 6
         wizard = r.choice(['json', 'json', 'json', 'json', 'plain', 'env'])
-        f20_ok = r.random() < 0.06
+        f20_ok = r.random() < 0.05
         names = r.sample(NAMES, k)
         meta = {}
         if r.random() < 0.5:
@@ -435,7 +481,12 @@ def cls_cases(ctx):
                 anchors = [x for x in [f['default'], (f['cond'] or {}).get('val'), (meta.get('skip_if') or {}).get('val'),
                                         (meta.get('skip_defaults_if') or {}).get('val')] if x is not None]
                 u = r.random()
-                if anchors and u < 0.35:
+                oa = ordering_anchor([f['cond'] if f['cond'] is not None else meta.get('skip_if'),
+                                      meta.get('skip_defaults_if') if f['default'] is not None else None])
+                cmpv = comparable_value(r, oa) if (oa is not None and r.random() < 0.85) else None
+                if cmpv is not None and u > 0.3:
+                    iv.append(L.new(cmpv))
+                elif anchors and u < 0.35:
                     iv.append(r.choice(anchors))                      # the very object
                 elif anchors and u < 0.55:
                     iv.append(L.new(r.choice(anchors)['d']))          # an equal copy
@@ -521,6 +572,23 @@ def check_call(c, rec, call):
     return None
 
 
+def shared_nan(c, inst, ids):
+    """an instance value that IS (same object) a default / comparison value of the class and is a
+    container holding nan: CPython's per-element identity shortcut makes it equal to itself, the
+    model compares structurally (nan != nan) — outside the model's domain."""
+    others = []
+    for f in c['fields']:
+        if f['default'] is not None:
+            others.append(f['default'])
+        if f.get('cond') is not None and f['cond']['val'] is not None:
+            others.append(f['cond']['val'])
+    for k in ('skip_if', 'skip_defaults_if'):
+        if c['meta'].get(k) is not None and c['meta'][k]['val'] is not None:
+            others.append(c['meta'][k]['val'])
+    shared = {ids[str(o['l'])] for o in others if d_nested_nan(o['d'])}
+    return any(d_nested_nan(lv['d']) and ids[str(lv['l'])] in shared for lv in inst)
+
+
 def impl_show(c, got):
     if 'err' in got:
         return 'E:' + got['err']
@@ -589,6 +657,9 @@ def eval_cases(ctx, cases, impl_cases, tie=True):
                 continue
             mres = model_of.get((ci, ii))
             mres = mres.split('|') if mres is not None else None
+            if mres is not None and shared_nan(c, inst, res['ids']):
+                ctx.hist('outside_model_domain', 'instance shares a nan-holding container with the class')
+                mres = None
             calls = [(E, s) for E in c['Es'] for s in c['ss']]
             for k, ((E, s), call) in enumerate(zip(calls, rec['calls'])):
                 ctx.count(1, key='%s:%d:%d:%d' % (c['stream'], ci, ii, k), nontrivial=case_nontrivial(c, E))
@@ -661,7 +732,9 @@ def sem_stream(ctx):
             ctx.violation('Condition.evaluate differs from the Python operator on (%s, %s): %r vs %r'
                           % (json.dumps(pool[i])[:60], json.dumps(pool[j])[:60], p['evaluate'], p['python']),
                           {'kind': 'evaluate', 'a': pool[i], 'b': pool[j]})
-        if model is not None:
+        if model is not None and ids[str(i)] == ids[str(j)] and d_nested_nan(pool[i]):
+            ctx.hist('outside_model_domain', 'container holding nan compared with itself')
+        elif model is not None:
             ctx.traces_validated += 1
             if ','.join(p['evaluate']) != model[n + k]:
                 ctx.disagreements_checked += 1
@@ -694,13 +767,17 @@ def run(ctx):
     impl_cases = run_batch(ctx, cases)
     failures = eval_cases(ctx, cases, impl_cases)
     n_viol = 0
+    seen_cases = set()
     for ci, ii, k, what, region in failures:
         c = cases[ci]
         if region is not None and ctx.is_open_region(region):
             ctx.hist('known_region', region)
             continue
+        if ci in seen_cases:
+            continue
+        seen_cases.add(ci)
         n_viol += 1
-        if n_viol <= 10:
+        if n_viol <= 8:
             ctx.violation('%s [%s class, %d field(s)]' % (what, c['wizard'], len(c['fields'])),
                           {'kind': 'case', 'case': c, 'instance': ii, 'call': k})
     for c in cases:
